@@ -46,7 +46,8 @@ def writes(f, include_index=False):
                     elif k == "ocall" and n.get("op") in ("++", "--", "=", "+=", "-="):
                         yield n, lvalue_root(f, obj), "call:" + name
                     elif name in ("begin", "end", "rbegin", "rend", "find", "lower_bound", "upper_bound",
-                                  "front", "back", "at", "operator[]", "get", "data"):
+                                  "front", "back", "at", "operator[]", "get", "data",
+                                  "row_begin", "row_end", "element_begin", "element_end"):
                         pass
                     else:
                         yield n, f.root(obj), "call:" + name
